@@ -535,7 +535,7 @@ def _execute(sc):
             probe("multi_segment")
         if len(wire) > 16384 + 5:
             probe("hello_over_16k")
-        key_base = {"family": fam}
+        key_base = {}
         if len(seen) > 1:
             violate("hook_fired_twice", dict(key_base), f"conn {res['i']}: tls_clienthello fired {len(seen)} times")
         obs = seen[0] if seen else None
@@ -594,7 +594,7 @@ def _execute(sc):
         first = outcomes[0]
         for o in outcomes[1:]:
             if o[1] != first[1]:
-                violate("split_dependent_result", {"family": fam},
+                violate("split_dependent_result", {"fired_somewhere": any(x[1] is not None for x in outcomes)},
                         f"same hello, different framing: conn {first[0]} -> {first[1] and first[1][:2]}, conn {o[0]} -> {o[1] and o[1][:2]}")
                 break
 
